@@ -674,6 +674,42 @@ def native_delimited_roundtrip():
         except Exception as e:  # noqa
             failures.append(dict(key="writer-delimited-roundtrip", what="dialect %s raised %s: %s" % (name, type(e).__name__, e),
                                  args=dict(dialect=name)))
+    # rows whose items are all empty (under a CID that allows it) are rows like any other; a row object the caller
+    # re-uses and changes in place is validated again every time it is written
+    for fmt_text, empties in (("d,format,delimited\nf,a,,X,...1\nf,b,,X\n", [["x", "y"], ["", ""], ["z", ""], ["", ""]]),
+                              ("d,format,delimited\nf,a,,X,...1\n", [["x"], [""], ["y"]])):
+        n += 1
+        try:
+            out = io.StringIO()
+            with validio.Writer(interface.create_cid_from_string(fmt_text), out) as w:
+                for row in empties:
+                    w.write_row(row)
+            back = list(validio.rows(interface.create_cid_from_string(fmt_text), io.StringIO(out.getvalue(), newline=""), on_error="yield"))
+            if back != empties:
+                failures.append(dict(key="writer-delimited-roundtrip", what="rows %r (all fields may be empty) written as %r read back as %r" % (
+                    empties, out.getvalue(), back), args=dict(rows=empties)))
+        except Exception as e:  # noqa
+            failures.append(dict(key="writer-delimited-roundtrip", what="rows %r raised %s: %s" % (empties, type(e).__name__, e), args=dict(rows=empties)))
+    for fmt_text in ("d,format,delimited\nf,a,,,1...2\nf,b,,X,...1\n", FIXED_CID % ("lf", 0)):
+        n += 1
+        try:
+            out = io.StringIO()
+            w = validio.Writer(interface.create_cid_from_string(fmt_text), out)
+            buffer = ["ab", "c"]
+            verdicts = []
+            for first, second in (("ab", "c"), ("toolong", "c"), ("ab", "c"), ("", "c"), ("ab", "toolong"), ("cd", "")):
+                buffer[0], buffer[1] = first, second  # the same list object, changed in place
+                try:
+                    w.write_row(buffer)
+                    verdicts.append(True)
+                except errors.DataError:
+                    verdicts.append(False)
+            w.close()
+            if verdicts != [True, False, True, False, False, True]:
+                failures.append(dict(key="writer-reused-row-object", what="one list object changed in place and written six times under %r: accepted %r, "
+                                     "expected [True, False, True, False, False, True]; output %r" % (fmt_text, verdicts, out.getvalue()), args={}))
+        except Exception as e:  # noqa
+            failures.append(dict(key="writer-reused-row-object", what="re-used row object under %r raised %s: %s" % (fmt_text, type(e).__name__, e), args={}))
     # fixed format through the file system: Writer on a path, read back by path and by stream, every line delimiter
     import os
     import shutil
